@@ -116,6 +116,76 @@ Theorem arg_flags_table :
   forallb flag_ok gen_spec_arg_flags = true /\ map fst gen_spec_arg_flags = map fst gen_harness_arg_flags.
 Proof. split; reflexivity. Qed.
 
+(** ---- Command::_build_self: order of the steps, the argument loop, the deprecated command-level settings ---- *)
+(** the model's function for each step of the source ("args._build" builds the key map, which the model computes on
+    demand ([Cmd.keymap]); "assert_app" is the configuration gate, a separate function of the model ([Valid.assert_app])) *)
+Definition step_named (s : string) : option (cmd -> cmd) :=
+  if String.eqb s "settings_block" then Some bs_settings
+  else if String.eqb s "_propagate" then Some bs_propagate
+  else if String.eqb s "_check_help_and_version" then Some bs_help_version
+  else if String.eqb s "_propagate_global_args" then Some bs_globals
+  else if String.eqb s "args_loop" then Some bs_args
+  else if String.eqb s "args._build" then Some (fun c => c)
+  else if String.eqb s "deprecated_block" then Some bs_deprecated
+  else if String.eqb s "assert_app" then Some (fun c => c)
+  else if String.eqb s "set_built" then Some bs_mark
+  else None.
+Definition tbl_build_self (c : cmd) : option cmd :=
+  if s_built (c_set c) then Some c
+  else fold_left (fun acc s => obind acc (fun c => obind (step_named s) (fun f => Some (f c)))) gen_build_self_steps (Some c).
+
+(** the model's [build_self] runs the steps in the order the source runs them *)
+Theorem build_self_steps_table : forall c, tbl_build_self c = Some (build_self c).
+Proof. intros c. unfold tbl_build_self, build_self. destruct (s_built (c_set c)); reflexivity. Qed.
+
+(** inside the loop over the arguments: groups, then [Arg::_build], then (help only, not modelled) hide_possible_values,
+    then the positional index -- the order of [Build.build_args]; indices start at [gen_pos_counter_start] *)
+Definition model_args_loop_steps : list string := ["groups"; "_build"; "hide_possible_values"; "index"]%string.
+Theorem args_loop_table :
+  gen_args_loop_steps = model_args_loop_steps
+  /\ (forall c, bs_args c = let ba := build_args (c_args c) (c_groups c) gen_pos_counter_start in
+                          c <| c_args := fst ba |> <| c_groups := snd ba |>).
+Proof. split; [reflexivity|intros c; reflexivity]. Qed.
+
+Theorem args_loop_table_proj :
+  gen_args_loop_steps = model_args_loop_steps
+  /\ (forall c, c_args (bs_args c) = fst (build_args (c_args c) (c_groups c) gen_pos_counter_start)
+              /\ c_groups (bs_args c) = snd (build_args (c_args c) (c_groups c) gen_pos_counter_start)).
+Proof. split; [reflexivity|intros c; split; reflexivity]. Qed.
+
+(** the deprecated command-level AllowHyphenValues / AllowNegativeNumbers / TrailingVarArg *)
+Definition dep_cond (s : string) (highest : N) : option (arg -> bool) :=
+  if String.eqb s "arg.is_takes_value_set()" then Some a_takes_value
+  else if String.eqb s "arg.get_index() == Some(highest_idx)"
+       then Some (fun a => match a_index a with Some n => n =? highest | None => false end)
+  else None.
+Definition arg_flag_set (v : string) : option (arg -> arg) :=
+  if String.eqb v "AllowHyphenValues" then Some (fun a => a <| a_hyphen := true |>)
+  else if String.eqb v "AllowNegativeNumbers" then Some (fun a => a <| a_negnum := true |>)
+  else if String.eqb v "TrailingVarArg" then Some (fun a => a <| a_tva := true |>)
+  else None.
+Definition tbl_deprecated_arg (c : cmd) (highest : N) (a : arg) : option arg :=
+  fold_left (fun acc r =>
+               obind acc (fun a =>
+               obind (TablesSettings.field_by_variant (fst (fst r))) (fun f =>
+               obind (dep_cond (snd (fst r)) highest) (fun cond =>
+               obind (arg_flag_set (snd r)) (fun put =>
+                 Some (if is_set (TablesSettings.sf_get f) c && cond a then put a else a))))))
+            gen_deprecated_rules (Some a).
+Theorem deprecated_table : forall c highest a, tbl_deprecated_arg c highest a = Some (bs_deprecated_arg c highest a).
+Proof. intros c highest a. reflexivity. Qed.
+Theorem deprecated_highest_table : forall c,
+  bs_deprecated c =
+  c <| c_args := map (bs_deprecated_arg c (fold_left (fun m a => match a_index a with Some n => N.max m n | None => m end)
+                                                     (c_args c) gen_highest_idx_default)) (c_args c) |>.
+Proof. intros c. reflexivity. Qed.
+
+Theorem deprecated_highest_table_proj : forall c,
+  c_args (bs_deprecated c) =
+  map (bs_deprecated_arg c (fold_left (fun m a => match a_index a with Some n => N.max m n | None => m end)
+                                      (c_args c) gen_highest_idx_default)) (c_args c).
+Proof. intros c. reflexivity. Qed.
+
 (** ---- other models' copies of `ArgAction::takes_values` ---- *)
 (** C15's model ([DeriveModel.action_takes_values]; same [action] type as the parser model) *)
 Theorem derive_takes_values_table : forall act row, row_of act = Some row ->
@@ -144,6 +214,8 @@ Module TablesBuildExamples.
                                                   <| a_aliases := [([111; 112], true)] |>)
                     = Some [KShort 111; KLong [111; 117; 116]; KLong [111; 112]].
   Proof. reflexivity. Qed.
+  Example ex_steps : option_map (fun c => s_built (c_set c)) (tbl_build_self ex) = Some true.
+  Proof. vm_compute. reflexivity. Qed.
   Example ex_rows : exists r1 r2, row_of ACount = Some r1 /\ row_of (aot_action AotTree.AAppend) = Some r2.
   Proof. eexists. eexists. split; reflexivity. Qed.
 End TablesBuildExamples.
